@@ -77,26 +77,25 @@ func (s *state) get(key string) string {
 			}
 		}
 	case s.prev != nil:
-		hav := s.havocKeys[key] || (s.havocHeap && isHeapKey(key)) || (s.havocGhst && meta.Ghost && (!meta.Local || s.havocLocal) && key != "G:$alloc")
-		if hav && s.havocHeap && isHeapKey(key) && !s.havocKeys[key] {
-			for _, p := range s.keepPats {
-				if keepMatches(key, p) {
-					hav = false
-				}
-			}
-		}
-		if s.havocIscopy && strings.HasPrefix(key, "G:iscopy$") {
-			hav = true
-		}
-		for _, p := range s.havocPats {
-			if keyMatches(key, p) {
-				hav = true
-			}
-		}
+		hav := s.havocs(key, meta)
 		if !hav {
 			res = s.prev.get(key)
 		} else {
-			old := s.prev.get(key)
+			// skip intermediate states that also (unconditionally) havoc this key and whose version nobody read:
+			// weakening is transitive, and a fresh value has no relation to an unread fresh value
+			base := s.prev
+			if s.guard == "" {
+				for base.prev != nil && len(base.parents) == 0 && base.guard == "" && base.havocs(key, meta) {
+					if _, read := base.vals[key]; read {
+						break
+					}
+					base = base.prev
+				}
+			}
+			var old string
+			if meta.Mono || key == "G:$alloc" || s.guard != "" {
+				old = base.get(key)
+			}
 			res = vc.freshConst("h!"+key, meta.Sort)
 			if meta.Mono {
 				vc.assert(vc.monoAxiom(old, res, meta.Arity))
@@ -150,20 +149,6 @@ func (vc *VC) mergeStates(edges []stEdge) *state {
 	}
 	n := vc.newState()
 	n.parents = edges
-	// eagerly merge keys already materialised in any parent so that the guarded equalities are
-	// emitted at the join point (prefix rule: later obligations see them).
-	keys := map[string]bool{}
-	for _, e := range edges {
-		e.st.collectKeys(keys, map[*state]bool{})
-	}
-	ks := make([]string, 0, len(keys))
-	for k := range keys {
-		ks = append(ks, k)
-	}
-	sortStrings(ks)
-	for _, k := range ks {
-		n.get(k)
-	}
 	return n
 }
 
@@ -197,4 +182,25 @@ func keepMatches(key, pat string) bool {
 		return key[0] == 'F' && (strings.HasPrefix(body, p) || strings.Contains(body, "/"+p) )
 	}
 	return keyMatches(key, pat)
+}
+
+// havocs reports whether this derived state forgets (or weakens) component key relative to prev.
+func (s *state) havocs(key string, meta keyMeta) bool {
+	hav := s.havocKeys[key] || (s.havocHeap && isHeapKey(key)) || (s.havocGhst && meta.Ghost && (!meta.Local || s.havocLocal) && key != "G:$alloc")
+	if hav && s.havocHeap && isHeapKey(key) && !s.havocKeys[key] {
+		for _, p := range s.keepPats {
+			if keepMatches(key, p) {
+				hav = false
+			}
+		}
+	}
+	if s.havocIscopy && strings.HasPrefix(key, "G:iscopy$") {
+		hav = true
+	}
+	for _, p := range s.havocPats {
+		if keyMatches(key, p) {
+			hav = true
+		}
+	}
+	return hav
 }
